@@ -63,7 +63,10 @@ Definition bitop (op : Z) (a b : val) : val :=
   | _, _, _, _ => VDyn
   end.
 
-(* integer powers inside the modelled domain: |x| > 1 and y >= 64 is beyond 2^53 *)
+(* integer powers inside the modelled domain: |x| > 1 and y >= 64 is beyond 2^53.
+   ASSUMPTION made explicit: where the exact result is an integer of magnitude <= 2^53
+   Go's math.Pow returns it exactly (checked on a grid by the harness); larger finite
+   results are VOut -- math.Pow is not correctly rounded there (known finding C06-M) *)
 Definition pow_int (x y : Z) : val :=
   if y <? 0 then VOut
   else if x =? 0 then VNum 0                      (* y = 0 is handled before *)
